@@ -173,6 +173,8 @@ class Analysis:
                     val = a.read(st, v[1])
                     if val[0] in ("const", "bytes", "agg", "repeat"):
                         cache[idx] = val
+                    elif val[0] == "call" and all(isinstance(x, tuple) and x and x[0] == "const" for x in val[2]):
+                        cache[idx] = strip_sites(val)       # a constructor applied to constants (a named range)
                         self.vtype.setdefault(val, a.vtype.get(val))
         return cache[idx]
 
@@ -284,6 +286,10 @@ class Analysis:
         if "promoted" in k:
             return ("promoted", self.fn.path, k["promoted"])
         if "uneval" in k:
+            if self.F is not None and hasattr(self.F, "const_value"):
+                v = self.F.const_value(k["uneval"])
+                if v is not None:
+                    return v
             return ("kconst", k["uneval"], k["ty"])
         s = k["s"]
         return ("kconst", s, k["ty"])
